@@ -232,6 +232,159 @@ theorem slot_text_invisible (sh : Sh) (slot : Slot) (h : sound sh slot = true) (
     run (stepOf sh) (slotCtx sh slot) (slotEscape sh slot t ++ rest) = run (stepOf sh) (slotCtx sh slot) rest := by
   rw [run_append, slot_text_stays_inside sh slot h t]; simp
 
+/-! #### zsh, second level: the `_arguments` spec survives too -/
+
+/-- the image of one character under a chain -/
+def img (chain : List (Char × Str)) (c : Char) : Str := applyChain chain [c]
+
+theorem zshUnqSq_quote (rest : Str) : zshUnqSq (['\'', '\\', '\'', '\''] ++ rest) = '\'' :: zshUnqSq rest := by
+  simp [zshUnqSq, zshUnq]
+
+theorem zshUnqSq_cons (c : Char) (h : c ≠ '\'') (rest : Str) : zshUnqSq (c :: rest) = c :: zshUnqSq rest := by
+  have : (c == '\'') = false := by simpa using h
+  simp [zshUnqSq, zshUnq, this]
+
+/-- per character: reading the shell-quoted image gives the spec-level image -/
+theorem zsh_unq_char (c : Char) (rest : Str) :
+    zshUnqSq (img Gen.zshEscapeHelp c ++ rest) = img zshHelpSpecChain c ++ zshUnqSq rest := by
+  have q : ('\\' : Char) ≠ '\'' := by decide
+  by_cases h1 : c = Char.ofNat 92
+  · subst h1
+    rw [show img Gen.zshEscapeHelp (Char.ofNat 92) = ['\\', '\\'] by decide, show img zshHelpSpecChain (Char.ofNat 92) = ['\\', '\\'] by decide]
+    simp [zshUnqSq_cons _ q]
+  by_cases h2 : c = Char.ofNat 39
+  · subst h2
+    rw [show img Gen.zshEscapeHelp (Char.ofNat 39) = ['\'', '\\', '\'', '\''] by decide, show img zshHelpSpecChain (Char.ofNat 39) = ['\''] by decide]
+    rw [zshUnqSq_quote]; rfl
+  by_cases h3 : c = Char.ofNat 91
+  · subst h3
+    rw [show img Gen.zshEscapeHelp (Char.ofNat 91) = ['\\', '['] by decide, show img zshHelpSpecChain (Char.ofNat 91) = ['\\', '['] by decide]
+    simp [zshUnqSq_cons _ q, zshUnqSq_cons '[' (by decide)]
+  by_cases h4 : c = Char.ofNat 93
+  · subst h4
+    rw [show img Gen.zshEscapeHelp (Char.ofNat 93) = ['\\', ']'] by decide, show img zshHelpSpecChain (Char.ofNat 93) = ['\\', ']'] by decide]
+    simp [zshUnqSq_cons _ q, zshUnqSq_cons ']' (by decide)]
+  by_cases h5 : c = Char.ofNat 58
+  · subst h5
+    rw [show img Gen.zshEscapeHelp (Char.ofNat 58) = ['\\', ':'] by decide, show img zshHelpSpecChain (Char.ofNat 58) = ['\\', ':'] by decide]
+    simp [zshUnqSq_cons _ q, zshUnqSq_cons ':' (by decide)]
+  by_cases h6 : c = Char.ofNat 36
+  · subst h6
+    rw [show img Gen.zshEscapeHelp (Char.ofNat 36) = ['\\', '$'] by decide, show img zshHelpSpecChain (Char.ofNat 36) = ['\\', '$'] by decide]
+    simp [zshUnqSq_cons _ q, zshUnqSq_cons '$' (by decide)]
+  by_cases h7 : c = Char.ofNat 96
+  · subst h7
+    rw [show img Gen.zshEscapeHelp (Char.ofNat 96) = ['\\', '`'] by decide, show img zshHelpSpecChain (Char.ofNat 96) = ['\\', '`'] by decide]
+    simp [zshUnqSq_cons _ q, zshUnqSq_cons '`' (by decide)]
+  by_cases h8 : c = Char.ofNat 10
+  · subst h8
+    rw [show img Gen.zshEscapeHelp (Char.ofNat 10) = [' '] by decide, show img zshHelpSpecChain (Char.ofNat 10) = [' '] by decide]
+    simp [zshUnqSq_cons ' ' (by decide)]
+  have e : img Gen.zshEscapeHelp c = [c] := applyChain_other _ c (by
+    intro p hp; simp [Gen.zshEscapeHelp] at hp
+    rcases hp with rfl | rfl | rfl | rfl | rfl | rfl | rfl | rfl
+    · exact fun e => h1 e.symm
+    · exact fun e => h2 e.symm
+    · exact fun e => h3 e.symm
+    · exact fun e => h4 e.symm
+    · exact fun e => h5 e.symm
+    · exact fun e => h6 e.symm
+    · exact fun e => h7 e.symm
+    · exact fun e => h8 e.symm)
+  have e' : img zshHelpSpecChain c = [c] := applyChain_other _ c (by
+    intro p hp
+    have hp' : p ∈ Gen.zshEscapeHelp := (List.mem_filter.1 hp).1
+    simp [Gen.zshEscapeHelp] at hp'
+    rcases hp' with rfl | rfl | rfl | rfl | rfl | rfl | rfl | rfl
+    · exact fun e => h1 e.symm
+    · exact fun e => h2 e.symm
+    · exact fun e => h3 e.symm
+    · exact fun e => h4 e.symm
+    · exact fun e => h5 e.symm
+    · exact fun e => h6 e.symm
+    · exact fun e => h7 e.symm
+    · exact fun e => h8 e.symm)
+  rw [e, e']
+  exact zshUnqSq_cons c h2 rest
+
+/-- **what `_arguments` receives**: after the shell has read the single-quoted word, the help text is
+exactly its spec-level escaping (the quote handling is gone, nothing else changed) -/
+theorem zsh_unquote_help (t rest : Str) :
+    zshUnqSq (applyChain Gen.zshEscapeHelp t ++ rest) = applyChain zshHelpSpecChain t ++ zshUnqSq rest := by
+  rw [applyChain_flatMap Gen.zshEscapeHelp, applyChain_flatMap zshHelpSpecChain]
+  induction t with
+  | nil => rfl
+  | cons c r ih =>
+    simp only [List.flatMap_cons, List.append_assoc]
+    have := zsh_unq_char c (r.flatMap (fun c => applyChain Gen.zshEscapeHelp [c]) ++ rest)
+    simp only [img] at this
+    rw [this, ih]
+
+theorem specRun_append (stop : Char) (a b : Str) (esc : Bool) :
+    specRun stop esc (a ++ b) = ((specRun stop (specRun stop esc a).1 b).1, (specRun stop esc a).2 || (specRun stop (specRun stop esc a).1 b).2) := by
+  induction a generalizing esc with
+  | nil => simp [specRun]
+  | cons c r ih =>
+    simp only [List.cons_append, specRun]
+    split
+    · exact ih false
+    · split
+      · exact ih true
+      · simp only [ih false]
+        cases (specRun stop false r).2 <;> cases (c == stop) <;> simp
+
+theorem spec_char (stop : Char) (hs : stop = ']' ∨ stop = ':') (c : Char) :
+    specRun stop false (img zshHelpSpecChain c) = (false, false) := by
+  by_cases h1 : c = Char.ofNat 92
+  · subst h1; rcases hs with rfl | rfl <;> decide
+  by_cases h3 : c = Char.ofNat 91
+  · subst h3; rcases hs with rfl | rfl <;> decide
+  by_cases h4 : c = Char.ofNat 93
+  · subst h4; rcases hs with rfl | rfl <;> decide
+  by_cases h5 : c = Char.ofNat 58
+  · subst h5; rcases hs with rfl | rfl <;> decide
+  by_cases h6 : c = Char.ofNat 36
+  · subst h6; rcases hs with rfl | rfl <;> decide
+  by_cases h7 : c = Char.ofNat 96
+  · subst h7; rcases hs with rfl | rfl <;> decide
+  by_cases h8 : c = Char.ofNat 10
+  · subst h8; rcases hs with rfl | rfl <;> decide
+  have e' : img zshHelpSpecChain c = [c] := applyChain_other _ c (by
+    intro p hp
+    have hp' : p ∈ Gen.zshEscapeHelp := (List.mem_filter.1 hp).1
+    have hq : p.1 ≠ '\'' := by simpa using (List.mem_filter.1 hp).2
+    simp [Gen.zshEscapeHelp] at hp'
+    rcases hp' with rfl | rfl | rfl | rfl | rfl | rfl | rfl | rfl
+    · exact fun e => h1 e.symm
+    · exact absurd rfl hq
+    · exact fun e => h3 e.symm
+    · exact fun e => h4 e.symm
+    · exact fun e => h5 e.symm
+    · exact fun e => h6 e.symm
+    · exact fun e => h7 e.symm
+    · exact fun e => h8 e.symm)
+  rw [e']
+  have b1 : (c == '\\') = false := by simpa using h1
+  have b2 : (c == stop) = false := by
+    rcases hs with rfl | rfl
+    · simpa using h4
+    · simpa using h5
+  simp [specRun, b1, b2]
+
+/-- **the description never ends its own field**: inside `[description]` no unquoted `]`, inside
+`name:description` no unquoted `:`, and the text does not end on a dangling backslash - for every text -/
+theorem zsh_spec_help_closed (stop : Char) (hs : stop = ']' ∨ stop = ':') (t : Str) :
+    specRun stop false (applyChain zshHelpSpecChain t) = (false, false) := by
+  rw [applyChain_flatMap]
+  induction t with
+  | nil => rfl
+  | cons c r ih =>
+    simp only [List.flatMap_cons]
+    rw [specRun_append]
+    have := spec_char stop hs c
+    simp only [img] at this
+    rw [this, ih]; rfl
+
 /-! #### the slots where it fails (concrete witnesses) -/
 
 /-- fish puts possible-value help inside a double-quoted `-a "…"` argument but escapes it for single
